@@ -114,7 +114,7 @@ Definition spec_missing_ranges (hdr : N) (l : list chunk) (limit : Z)
 (** * Implementation model *)
 
 (** [size_t] arithmetic where the code relies on it. *)
-Definition dec64 (x : N) : N := u64 (x + (two64 - 1)).          (* x - 1 *)
+Definition dec64 (x : N) : N := if x =? 0 then two64 - 1 else x - 1.   (* x - 1, for x < 2^64 *)
 Definition sub64 (a b : N) : N := u64 (a + (two64 - u64 b)).    (* a - b *)
 
 (** The [zckRange]: the linked list of items as an ascending list, [count], and the range
